@@ -181,8 +181,8 @@ PROPS["C02"] = dict(
     assumptions=["real-closed-field surrogate for F_p (identities exact, inequations assumed to transfer)", "finite points are not (0,0)"],
 )
 
-TOWER12 = {"bn254": dict(Beta=-1, XiA=9, XiB=1, DTwist=1, MTwist=0), "bls12-377": dict(Beta=-5, XiA=0, XiB=1, DTwist=1, MTwist=0),
-           "bls12-381": dict(Beta=-1, XiA=1, XiB=1, DTwist=0, MTwist=1)}
+TOWER12 = {"bn254": dict(Beta=-1, XiA=9, XiB=1, DTwist=1, MTwist=0, FrobCube=1, FrobMax=3), "bls12-377": dict(Beta=-5, XiA=0, XiB=1, DTwist=1, MTwist=0, FrobCube=0, FrobMax=2),
+           "bls12-381": dict(Beta=-1, XiA=1, XiB=1, DTwist=0, MTwist=1, FrobCube=0, FrobMax=2)}
 
 
 def tower_params(c):
@@ -208,4 +208,73 @@ PROPS["C06"] = dict(
     outside="bls24 (E4/E24) and bw6 (E3/E6) towers, small-field extensions, cyclotomic/compressed squarings, torus compression, "
             "Expt/ExpGLV/Exp, square roots, batch inversion, GT membership: not yet covered",
     assumptions=["real surrogate for F_p", "x^(p^k) is additive (characteristic p)"],
+)
+
+CURVES = ["bn254", "bls12-377", "bls12-381", "bls24-315", "bls24-317", "bw6-633", "bw6-761", "grumpkin", "secp256k1", "stark-curve"]
+
+
+def curve_params(c, g="G1"):
+    return dict(G=g, g=g.lower(), Full=0 if c == "stark-curve" else 1, FpPath="github.com/consensys/gnark-crypto/ecc/%s/fp" % c, FpSuffix="%s/fp" % c,
+                ACoeff="aCurveCoeff" if c != "secp256k1" and c != "grumpkin" else "fp.Element{}")
+
+
+PROPS["C02"] = dict(
+    jobs=[Job("ecc/" + c, ["C02/points.go.tmpl", "C02/g1.go.tmpl"], params=curve_params(c)) for c in CURVES],
+    level_text="Proof (no size bound: coordinates are arbitrary field elements) that G1 point arithmetic of the 10 short-Weierstrass "
+               "curves implements the chord-and-tangent law in affine, Jacobian and extended-Jacobian coordinates: Add/Sub/Double/Neg, "
+               "mixed variants, the bucket operations add/addMixed/subMixed/double/doubleMixed/doubleNegMixed, conversions, Equal, "
+               "IsInfinity and IsOnCurve, for every stratum of operand pairs (either operand infinite, equal points given by different "
+               "representatives, opposite points, 2-torsion, generic) and arbitrary projective scalings.",
+    level_note="Base-field elements are interpreted as reals: a rational identity with integer coefficients valid over Q is valid in "
+               "every field where its denominators are units; non-vanishing conclusions (Z3 != 0) are transferred to F_p by assumption. "
+               "The curve equation is used only to argue that the strata are exhaustive. Counterexamples are replayed natively on "
+               "genuine curve points close to the model.",
+    bounds="none on coordinates; G1 only",
+    outside="G2 (E2/E4 coordinates), twisted Edwards curves, subgroup membership tests, batch conversions: not yet covered",
+    assumptions=["real-closed-field surrogate for F_p (identities exact, inequations assumed to transfer)", "finite points are not (0,0)"],
+)
+
+TOWER12 = {"bn254": dict(Beta=-1, XiA=9, XiB=1, DTwist=1, MTwist=0, FrobCube=1, FrobMax=3), "bls12-377": dict(Beta=-5, XiA=0, XiB=1, DTwist=1, MTwist=0, FrobCube=0, FrobMax=2),
+           "bls12-381": dict(Beta=-1, XiA=1, XiB=1, DTwist=0, MTwist=1, FrobCube=0, FrobMax=2)}
+
+
+def tower_params(c):
+    d = dict(TOWER12[c])
+    d.update(FpPath="github.com/consensys/gnark-crypto/ecc/%s/fp" % c, FpSuffix="%s/fp" % c)
+    return d
+
+
+PROPS["C06"] = dict(
+    jobs=[Job("ecc/%s/internal/fptower" % c, ["C06/tower12.go.tmpl", "C06/frob_basis.go.tmpl"], params=tower_params(c), goarch="arm64") for c in TOWER12] +
+         [Job("ecc/%s/internal/fptower" % c, ["C06/tower12_l2.go.tmpl"], params=tower_params(c), goarch="arm64", label=c + "#E6overE2") for c in TOWER12] +
+         [Job("ecc/%s/internal/fptower" % c, ["C06/tower12_l6.go.tmpl"], params=tower_params(c), goarch="arm64", label=c + "#E12overE6") for c in TOWER12],
+    level_text="Proof (no size bound) for the Fp2/Fp6/Fp12 towers of bn254, bls12-377 and bls12-381 that ring operations, "
+               "sparse line products (MulBy034/34, Mul034By034, Mul34By34, MulBy01234; MulBy014/01, Mul014By014, Mul01By01, "
+               "MulBy01245; E6.MulByE2/MulBy01/MulBy1/MulBy12), conjugation, norms, halving, non-residue multiplications and "
+               "inverses equal schoolbook arithmetic in the documented quotient rings, every coordinate arbitrary (zero included); "
+               "Frobenius maps are additive, Fp-linear and equal x -> x^(p^k) on the twelve basis elements.",
+    level_note="Identities are decided over the reals for the base field (valid in every field). Inverses and E6/E12 Mul/Square "
+               "are additionally proved one level up with the level below abstract and the non-residue a free atom. The "
+               "generic (non-assembly) E2 code is selected by loading with GOARCH=arm64; amd64 E2 assembly is C09's subject. "
+               "Table constants given as Montgomery limbs are converted to rationals (or opaque atoms) by the encoder.",
+    bounds="none on operands; three 12-over-6-over-2 towers",
+    outside="bls24 (E4/E24) and bw6 (E3/E6) towers, small-field extensions, cyclotomic/compressed squarings, torus compression, "
+            "Expt/ExpGLV/Exp, square roots, batch inversion, GT membership: not yet covered",
+    assumptions=["real surrogate for F_p", "x^(p^k) is additive (characteristic p)"],
+)
+
+PROPS["C19"] = dict(
+    jobs=[Job(f, ["C01/common.go.tmpl", "C19/field.go.tmpl"], params=dict(WordBits=wordbits(f))) for f in ALL_FIELDS] +
+         [Job("ecc/" + c, ["C19/curve.go.tmpl"], params=curve_params(c), label=c + "#alias") for c in CURVES if c != "stark-curve"] +
+         [Job("ecc/%s/internal/fptower" % c, ["C19/tower.go.tmpl"], params=tower_params(c), goarch="arm64", label=c + "#toweralias") for c in TOWER12],
+    level_text="Proof that methods give the same result when receiver and operands are the same variable as when they are "
+               "distinct copies, and leave non-receiver operands unchanged: field elements of all 23 fields (Add, Sub, Mul, Square, Neg, "
+               "Double, Set, Select, Butterfly; full-width symbolic words), G1 points of 9 curves (Jacobian AddAssign/SubAssign/Double/Neg, "
+               "affine Add/Sub/Neg in every alias pattern, extended add/double), E2/E6/E12 of the three 12-towers (ring operations, "
+               "Inverse, Div, Conjugate, non-residue products, Frobenius maps, CyclotomicSquare).",
+    level_note="Both executions are symbolic over the same inputs (field level: machine words with shared uninterpreted products; "
+               "curve/tower level: base-field elements as reals); equality of results is decided by the solver or syntactically.",
+    bounds="none on operands",
+    outside="G2, twisted Edwards, polynomial packages, vector operations with overlapping sub-slices, remaining towers",
+    assumptions=[],
 )
